@@ -61,6 +61,7 @@ def run_cfg(cfg: dict, steps: list | None = None) -> dict:
         harness_error=harness_error,
         stats=dict(mach.stats),
         reach=dict(mach.reach),
+        incidents=mach.incidents,
         states=sorted(map(repr, mach.states)),
         uuid_calls=mach.clock.calls,
         uuid_span=(mach.clock.max_int - mach.clock.min_int) if mach.clock.min_int is not None else 0,
